@@ -44,9 +44,32 @@ def check(ctx):
     _r7(ctx, pkg)
 
 
-def _mutations(fl):
+def _aliases(fl, attr_ir):
+    """locals that are only ever bound to the given attribute of self (`pool = self.reaction_list`): the same object under another
+    name -- what is done to the local in place is done to the attribute"""
+    return {name for name, lst in fl.assigns.items() if lst and all(simp(v) == attr_ir for v, *_ in lst)}
+
+
+def _appends_to(fl, attr_ir):
+    """[(fact, appended value)] for `self.<attr>.append(x)`, also through a local alias of the attribute"""
+    al = _aliases(fl, attr_ir)
     out = []
     for f in fl.facts:
+        if f.kind == "call" and f.target == "append" and f.value and f.value[0] == "meth" and simp(f.value[1]) == attr_ir and len(f.value[3]) == 1:
+            out.append((f, simp(f.value[3][0])))
+        elif f.kind == "append" and f.op == "append" and f.target in al:
+            out.append((f, simp(f.value)))
+    return out
+
+
+def _mutations(fl):
+    out = []
+    al = _aliases(fl, RL)
+    for f in fl.facts:
+        if f.kind in ("append", "remove", "mutate") and f.target in al:
+            out.append((f.op, f))
+        elif (f.kind in ("store", "augstore") and f.target in al) or (f.kind == "delete" and f.target.split("[")[0].strip() in al and "[" in f.target):
+            out.append(("del" if f.kind == "delete" else "item", f))
         if f.kind == "attrstore" and f.target == "reaction_list" and f.extra.get("obj") == SELF:
             out.append(("assign", f))
         elif f.kind == "call" and f.value and f.value[0] == "meth" and f.value[1] == RL and f.target in ("append", "pop", "remove", "clear", "extend", "insert", "sort", "reverse"):
@@ -59,7 +82,10 @@ def _mutations(fl):
 def _cache_updates(fl, pkg):
     """facts that (re)establish a cache: {cache: [fact]}; a call of self.add_reaction/_add_reaction counts for both."""
     out = {c: [] for c in CACHES}
+    al = {name: c for c in CACHES for name in _aliases(fl, ("attr", SELF, c))}
     for f in fl.facts:
+        if f.kind in ("append", "mutate") and f.target in al and f.op in ("update", "add", "clear"):
+            out[al[f.target]].append(f)
         if f.kind == "attrstore" and f.target in CACHES and f.extra.get("obj") == SELF:
             out[f.target].append(f)
         elif f.kind == "call" and f.value and f.value[0] == "meth":
@@ -72,9 +98,11 @@ def _cache_updates(fl, pkg):
     return out
 
 
-def _cache_growth(f):
+def _cache_growth(f, al=None):
     """(cache, what is added) when the fact adds members to a cached set of self: `.update(X)`, `|= X`, `= self.<cache> | X`,
-    `= self.<cache>.union(X)`; else None"""
+    `= self.<cache>.union(X)`; else None.  al: {local name: cache} for locals that alias a cache"""
+    if al and f.kind == "mutate" and f.target in al and f.op == "update" and f.value is not None:
+        return al[f.target], simp(f.value)
     if f.kind == "call" and f.target == "update" and f.value and f.value[0] == "meth" and f.value[1][0] == "attr" and f.value[1][1] == SELF \
             and f.value[1][2] in CACHES and len(f.value[3]) == 1:
         return f.value[1][2], simp(f.value[3][0])
@@ -90,6 +118,23 @@ def _cache_growth(f):
     return None
 
 
+def _concat_operands(v):
+    """the sequences a new list is the concatenation of, whatever the spelling: `a + b`, `[*a, *b]`, `list(chain(a, b))`, with
+    list(..) / tuple(..) / .copy() / [:] of an operand being that operand"""
+    from .c09 import _is_chain, _unwrap_seq
+    v = _unwrap_seq(v)
+    if v[0] == "sub" and v[2] == ("slice", ("const", None), ("const", None), ("const", None)):
+        return _concat_operands(v[1])
+    if v[0] == "binop" and v[1] == "Add":
+        return _concat_operands(v[2]) + _concat_operands(v[3])
+    if v[0] in ("list", "tuple") and v[1] and all(e[0] == "star" for e in v[1]):
+        return [o for e in v[1] for o in _concat_operands(e[1])]
+    ch = _is_chain(v)
+    if ch is not None:
+        return [o for a in ch for o in _concat_operands(a)]
+    return [v]
+
+
 def _flat_and(g):
     if g[0] == "bool" and g[1] == "And":
         out = []
@@ -103,7 +148,16 @@ def _covers(update, mutation):
     """the update executes whenever the mutation does: every guard of the update is a guard of the mutation, or is
     the negated exit condition of a chain one of whose arms the mutation sits in."""
     from ..valueflow import guards_imply
-    return guards_imply(mutation.guards, update.guards)
+    # `if new: cache.update(new)` -- an update skipped only when there is nothing to add -- is an update on every path
+    added = None
+    if update.kind == "call" and update.target in ("update", "add") and update.value and len(update.value[3]) == 1:
+        added = simp(update.value[3][0])
+    elif update.kind in ("mutate", "append") and update.value is not None:
+        added = simp(update.value)
+    elif update.kind == "attrstore" and update.op == "BitOr":
+        added = simp(update.value)
+    need = [(c, p) for c, p in update.guards if not (p and added is not None and simp(c) == added)]
+    return guards_imply(mutation.guards, need)
 
 
 def _r1(ctx, pkg):
@@ -113,17 +167,41 @@ def _r1(ctx, pkg):
     # adders stay calls: they are the cache-maintaining primitives _cache_updates knows
     def procs(name):
         return None if name in ("add_reaction", "_add_reaction", "add_reaction_from_file") else pkg.resolve("Network", name)[1]
+    ADDERS = ("add_reaction", "_add_reaction", "add_reaction_from_file")
+
+    def calls_of(fn_, name):
+        return [c for c in ast.walk(fn_) if isinstance(c, ast.Call) and isinstance(c.func, ast.Attribute) and c.func.attr == name
+                and isinstance(c.func.value, ast.Name) and c.func.value.id in ("self", "cls")]
     for mname, fn in ci.methods.items():
-        fl = Flow(fn, NF, proc_resolver=procs)
+        # statement helpers that hand a result back (`return self._record(r)`, `a, b = self._scan(x)`) are put back as well
+        try:
+            efn = pkg.expanded("Network", mname, keep=ADDERS)
+        except Exception:
+            efn = fn
+        fl = Flow(efn, NF, proc_resolver=procs)
         muts = _mutations(fl)
         if not muts:
             continue
         ctx.saw(NF, f"Network.{mname}")
         ups = _cache_updates(fl, pkg)
+        # a private step of a pipeline (`self._store(r)` appends, `self._note_species(r)` updates the caches) is judged where the
+        # pipeline is assembled: in every method that calls it, with the step put back in place
+        callers = [(cn, cf) for cn, cf in ci.methods.items() if cf is not fn and calls_of(cf, mname)] if mname.startswith("_") and not mname.startswith("__") and mname not in ADDERS else []
         for kind, m in muts:
-            n += 1
             missing = [c for c in CACHES if not any(_covers(u, m) for u in ups[c])]
             key = f"Network.{mname}:{kind}@{' & '.join(('' if p else 'not ') + show(simp(g))[:40] for g, p in m.guards) or 'always'}"
+            if missing and callers:
+                left = []
+                for cn, cf in callers:
+                    try:
+                        if calls_of(pkg.expanded("Network", cn, keep=ADDERS), mname):
+                            left.append(cn)
+                    except Exception:
+                        left.append(cn)
+                if left:
+                    ctx.unrec("R1", key, (NF, m.line), f"`{mname}` changes self.reaction_list without updating {missing}; it is a step of {left}, where it could not be put back in place to see whether the caller completes the update")
+                continue            # judged as part of each caller (the step is expanded there)
+            n += 1
             ctx.check(not missing, "R1", key, (NF, m.line),
                       "the cached species sets are updated on this path" if not missing else
                       f"self.reaction_list is changed here ({kind}) but {missing} are neither updated nor rebuilt on this path: "
@@ -132,9 +210,12 @@ def _r1(ctx, pkg):
     ctx.floor("R1", "mutations of reaction_list", n, 7)
     # nobody outside Network writes the caches
     outside = []
+    own = {id(n_) for n_ in ast.walk(ci.node)}        # statements of Network's own methods, whatever the receiver is called
     for f in pkg.files:
         mod = pkg.modules[f]
         for node in ast.walk(mod):
+            if id(node) in own:
+                continue
             tgts = []
             if isinstance(node, ast.Assign):
                 tgts = node.targets
@@ -153,14 +234,17 @@ def _r1(ctx, pkg):
 def _r2(ctx, pkg):
     fn = pkg.method("Network", "_add_reaction")
     ctx.saw(NF, "Network._add_reaction")
-    fl = Flow(fn, NF)
-    app = [f for f in fl.facts if f.kind == "call" and f.target == "append" and f.value[1] == RL]
-    skip = [f for f in fl.facts if f.kind == "call" and f.target == "append" and f.value[1] == ("attr", SELF, "_skipped_reactions")]
+    # the steps may sit in helper methods (conversion, the filter predicate, the recording of an admitted reaction): statement
+    # helpers are put back where they are called, value / predicate helpers are followed by the flow
+    fn = pkg.expanded("Network", "_add_reaction")
+    fl = Flow(fn, NF, resolver=lambda name: pkg.resolve("Network", name)[1])
+    app = _appends_to(fl, RL)
+    skipped = _appends_to(fl, ("attr", SELF, "_skipped_reactions"))
+    skip = [f for f, _ in skipped]
     if len(app) != 1:
         ctx.unrec("R2", "_add_reaction:append", (NF, fn.lineno), f"expected one append to reaction_list, found {len(app)}")
         return
-    a = app[0]
-    reac = simp(a.value[3][0])
+    a, reac = app[0]
     ALLOWED = ("attr", SELF, "_allowed_species")
 
     def all_test(x):
@@ -195,25 +279,39 @@ def _r2(ctx, pkg):
     if tests:
         fails = (tests[0], all_test(tests[0]) < 0)          # the polarity under which "some species is not allowed"
         dominated = not guards_satisfiable(a.guards, [(ALLOWED, True), fails])
+    if not tests:
+        # no all(.. in allowed ..) over the reaction's species among the guards.  Understood and wrong: an all / any with another
+        # membership test, or no mention of the allowed list at all (the append is unguarded).  A test of the allowed list in another
+        # form (subset comparison of sets, a helper that could not be followed) is not understood.
+        gtxt = [x for g, _ in a.guards for x in walk(simp(g)) if isinstance(x, tuple) and len(x) >= 2]
+        quantified = any(x[0] == "call" and x[1] in (("global", "all"), ("global", "any")) for x in gtxt)
+        mentions = any(x == ALLOWED for x in gtxt) or any(x[0] == "meth" and x[1] == SELF for x in gtxt)
+        if mentions and not quantified:
+            ctx.unrec("R2", "_add_reaction:filter dominates append", (NF, a.line), f"the test of the allowed list that guards the append is not understood: {detail[:200]}")
+            return
     ctx.check(dominated, "R2", "_add_reaction:filter dominates append", (NF, a.line),
               "a reaction is appended only if the allowed list is empty or all of its reactants and products are in it (Species membership)" if dominated else
               "the append is not dominated by `all(rp in self._allowed_species for rp in reactants + products)`: a reaction mentioning a disallowed species "
               "can enter, or spellings of one species (E / e-, another surface prefix) are compared by text instead of Species equality",
               expected="if self._allowed_species and not all([rp in self._allowed_species for rp in reaction.reactants + reaction.products]): skip", found=detail[:300])
-    ok_skip = len(skip) == 1 and simp(skip[0].value[3][0]) == reac and \
+    ok_skip = len(skip) == 1 and skipped[0][1] == reac and \
         bool(tests) and not guards_satisfiable(skip[0].guards, [(tests[0], all_test(tests[0]) > 0)]) and guards_satisfiable(skip[0].guards, [(ALLOWED, True), (tests[0], all_test(tests[0]) < 0)])
     ctx.check(ok_skip, "R2", "_add_reaction:rejected are remembered", (NF, skip[0].line if skip else fn.lineno),
               "a rejected reaction is recorded in _skipped_reactions (so a later change of the allowed list can re-admit it)")
     # cache updates use the appended reaction: self._reactants.update(X) / self._reactants |= X / self._reactants = self._reactants | X
-    ups = [(f, g) for f in fl.facts for g in [_cache_growth(f)] if g is not None]
+    cal = {name: c for c in CACHES for name in _aliases(fl, ("attr", SELF, c))}
+    ups = [(f, g) for f in fl.facts for g in [_cache_growth(f, cal)] if g is not None]
     good = len(ups) == 2 and {g[0] for _, g in ups} == set(CACHES)
     for u, (cache, arg) in ups:
         side = "reactants" if cache == "_reactants" else "products"
-        good = good and any(x == ("attr", reac, side) for x in walk(arg)) and {(simp(g), p) for g, p in u.guards} == {(simp(g), p) for g, p in a.guards}
+        ug, ag = {(simp(g), p) for g, p in u.guards}, {(simp(g), p) for g, p in a.guards}
+        # the same path as the append -- apart from `if <what is added>:` (adding nothing is no update)
+        good = good and any(x == ("attr", reac, side) for x in walk(arg)) and ag <= ug and all(g == (arg, True) for g in ug - ag)
     # the caches are written in some other way (element-wise add in a loop, ..): not understood, no verdict
     other = [f for f in fl.facts if not any(f is u for u, _ in ups) and
              ((f.kind == "call" and f.value and f.value[0] == "meth" and f.value[1][0] == "attr" and f.value[1][1] == SELF and f.value[1][2] in CACHES) or
-              (f.kind == "attrstore" and f.target in CACHES and f.extra.get("obj") == SELF))]
+              (f.kind == "attrstore" and f.target in CACHES and f.extra.get("obj") == SELF) or
+              (f.kind in ("append", "mutate", "remove", "store") and f.target in cal))]
     if not good and other:
         ctx.unrec("R2", "_add_reaction:cache update", (NF, other[0].line), f"the cached sets are maintained in a way that is not understood ({other[0].kind} {other[0].target})")
     else:
@@ -230,11 +328,13 @@ def _r2(ctx, pkg):
     adds = [f for f in sfl.facts if f.kind == "call" and f.target == "add_reaction" and f.loops]
     it0 = simp(adds[0].loops[0].iter) if adds else None
     rec = [e for lst in sfl.assigns.values() for e in lst if it0 is not None and simp(e[0]) == it0]
-    ok_rec = bool(rec) and simp(rec[0][0]) in (("binop", "Add", RL, ("attr", SELF, "_skipped_reactions")), ("binop", "Add", ("attr", SELF, "_skipped_reactions"), RL))
+    ok_rec = bool(rec) and sorted(_concat_operands(simp(rec[0][0]))) == sorted([RL, ("attr", SELF, "_skipped_reactions")])
     seq_rec = rec[0][4] if rec else 0
     reset_after = all(f.seq > seq_rec for f in sfl.facts if (f.kind == "attrstore" and f.target in ("reaction_list", "_skipped_reactions")) or (f.kind == "call" and f.target == "clear"))
     re_add = [f for f in sfl.facts if f.kind == "call" and f.target == "add_reaction" and f.loops and simp(f.loops[0].iter) == (simp(rec[0][0]) if rec else None)]
-    ok = {"_reactants", "_products"} <= clears | set(resets) and resets.get("reaction_list") == ("list", ()) and resets.get("_skipped_reactions") == ("list", ()) and ok_rec and reset_after and len(re_add) == 1
+    # emptied: re-bound to a new empty list, or cleared in place (the snapshot is a new list, see ok_rec)
+    emptied = lambda attr: simp(resets.get(attr, ("?",))) in (("list", ()), ("call", ("global", "list"), (), ())) or attr in clears
+    ok = {"_reactants", "_products"} <= clears | set(resets) and emptied("reaction_list") and emptied("_skipped_reactions") and ok_rec and reset_after and len(re_add) == 1
     ctx.check(ok, "R2", "allowed_species.setter", (NF, st.lineno),
               "the setter records reaction_list + _skipped_reactions, clears all caches, and re-adds every recorded reaction through add_reaction",
               found=f"clears {sorted(clears)}, resets {sorted(resets)}, recorded={show(simp(rec[0][0]))[:60] if rec else None}, re-add loops {len(re_add)}")
@@ -243,15 +343,288 @@ def _r2(ctx, pkg):
     ctx.check(len(al) == 1 and re_add and al[0].seq < re_add[0].seq, "R2", "allowed_species.setter:order", (NF, st.lineno), "the new allowed list is installed before the reactions are re-examined")
 
 
-def _declared(ci):
-    names = {"options": set(), "arguments": set()}
+class _Strings:
+    """Which strings an expression of a command class can denote -- by following the value, not by its spelling: literals, f-strings /
+    `+` / %-formatting / str.format / str.join over such, locals and module / class-level constants bound once, the variables of
+    `for` loops and comprehensions over literal tables (also zip / enumerate / dict items of such, module- or class-level ones),
+    and a parameter of a helper method (the values its call sites in the class pass).  Everything is finite and syntactic; what
+    is not understood is None (the caller answers UNRECOGNISED)."""
+
+    def __init__(self, pkg, ci):
+        self.pkg, self.ci = pkg, ci
+        self.mod = pkg.modules[ci.file]
+        self._parents = {}
+        self._once = {}
+
+    # ---- scopes
+    def parents(self, fn):
+        if id(fn) not in self._parents:
+            m = {}
+            for n in ast.walk(fn):
+                for ch in ast.iter_child_nodes(n):
+                    m[id(ch)] = n
+            self._parents[id(fn)] = m
+        return self._parents[id(fn)]
+
+    def once(self, scope, name):
+        """the value a name is bound to by its ONLY binding in a scope (function / module body), a plain assignment; else None"""
+        key = (id(scope), name)
+        if key not in self._once:
+            stores = [n for n in ast.walk(scope) if isinstance(n, ast.Name) and n.id == name and isinstance(n.ctx, (ast.Store, ast.Del))]
+            args = isinstance(scope, ast.FunctionDef) and any(a.arg == name for a in ast.walk(scope.args) if isinstance(a, ast.arg))
+            vals = [st.value for st in ast.walk(scope) if isinstance(st, (ast.Assign, ast.AnnAssign)) and st.value is not None
+                    for t in (st.targets if isinstance(st, ast.Assign) else [st.target]) if isinstance(t, ast.Name) and t.id == name]
+            self._once[key] = vals[0] if len(stores) == 1 and len(vals) == 1 and not args else None
+        return self._once[key]
+
+    def deref(self, e, fn):
+        """the expression a name / class attribute stands for (one step), or None"""
+        if isinstance(e, ast.Name):
+            v = self.once(fn, e.id) if fn is not None else None
+            if v is None and (fn is None or not any(isinstance(n, ast.Name) and n.id == e.id and isinstance(n.ctx, ast.Store) for n in ast.walk(fn))):
+                v = self.once(self.mod, e.id)
+            return v
+        if isinstance(e, ast.Attribute) and isinstance(e.value, ast.Name) and e.value.id in ("self", "cls", self.ci.name):
+            return self.pkg.resolve_attr(self.ci.name, e.attr)[1]
+        return None
+
+    # ---- sequences
+    def seq(self, e, fn, depth=0):
+        """the element expressions of a literal table, or None"""
+        if depth > 6 or e is None:
+            return None
+        if isinstance(e, (ast.List, ast.Tuple, ast.Set)):
+            return None if any(isinstance(x, ast.Starred) for x in e.elts) else list(e.elts)
+        if isinstance(e, ast.Dict):
+            return None if any(k is None for k in e.keys) else list(e.keys)
+        if isinstance(e, (ast.Name, ast.Attribute)):
+            return self.seq(self.deref(e, fn), fn, depth + 1)
+        if isinstance(e, ast.BinOp) and isinstance(e.op, ast.Add):
+            a, b = self.seq(e.left, fn, depth + 1), self.seq(e.right, fn, depth + 1)
+            return None if a is None or b is None else a + b
+        if isinstance(e, ast.Call) and not e.keywords:
+            f = e.func
+            if isinstance(f, ast.Name) and f.id in ("list", "tuple", "sorted", "tqdm", "iter") and len(e.args) == 1:
+                return self.seq(e.args[0], fn, depth + 1)
+            if isinstance(f, ast.Name) and f.id == "reversed" and len(e.args) == 1:
+                a = self.seq(e.args[0], fn, depth + 1)
+                return None if a is None else a[::-1]
+            if isinstance(f, ast.Name) and f.id == "zip" and e.args:
+                cols = [self.seq(a, fn, depth + 1) for a in e.args]
+                if any(c is None for c in cols):
+                    return None
+                return [ast.Tuple(elts=list(r), ctx=ast.Load()) for r in zip(*cols)]
+            if isinstance(f, ast.Name) and f.id == "enumerate" and len(e.args) == 1:
+                a = self.seq(e.args[0], fn, depth + 1)
+                return None if a is None else [ast.Tuple(elts=[ast.Constant(value=i), x], ctx=ast.Load()) for i, x in enumerate(a)]
+            if isinstance(f, ast.Attribute) and f.attr in ("items", "keys", "values") and not e.args:
+                d = f.value
+                for _ in range(4):
+                    if isinstance(d, ast.Dict) or d is None:
+                        break
+                    d = self.deref(d, fn)
+                if isinstance(d, ast.Dict) and not any(k is None for k in d.keys):
+                    if f.attr == "keys":
+                        return list(d.keys)
+                    if f.attr == "values":
+                        return list(d.values)
+                    return [ast.Tuple(elts=[k, v], ctx=ast.Load()) for k, v in zip(d.keys, d.values)]
+        return None
+
+    @staticmethod
+    def _bind(target, elt, row):
+        if isinstance(target, ast.Name):
+            row[target.id] = elt
+            return True
+        if isinstance(target, (ast.Tuple, ast.List)) and isinstance(elt, (ast.Tuple, ast.List)) and len(target.elts) == len(elt.elts) \
+                and not any(isinstance(x, ast.Starred) for x in list(target.elts) + list(elt.elts)):
+            return all(_Strings._bind(t, x, row) for t, x in zip(target.elts, elt.elts))
+        return False
+
+    def rows(self, node, fn):
+        """the bindings of the loop / comprehension variables over literal tables in force at `node`: [{name: element expr}]"""
+        par = self.parents(fn)
+        binders = []
+        ch, p_ = node, par.get(id(node))
+        while p_ is not None:
+            if isinstance(p_, ast.For) and any(ch is x for x in p_.body):
+                binders.append((p_.target, p_.iter))
+            elif isinstance(p_, (ast.ListComp, ast.SetComp, ast.GeneratorExp, ast.DictComp)) and not any(ch is g for g in p_.generators):
+                for g in reversed(p_.generators):
+                    binders.append((g.target, g.iter))
+            elif isinstance(p_, ast.comprehension):
+                # inside a generator's own iterable / filter: the earlier generators of the comprehension bind
+                comp = par.get(id(p_))
+                if comp is not None:
+                    i = next(i for i, g in enumerate(comp.generators) if g is p_)
+                    upto = i + (0 if ch is p_.iter else 1)
+                    for g in reversed(comp.generators[:upto]):
+                        binders.append((g.target, g.iter))
+                    ch, p_ = comp, par.get(id(comp))
+                    continue
+            ch, p_ = p_, par.get(id(p_))
+        out = [{}]
+        for tg, it in reversed(binders):
+            elts = self.seq(it, fn)
+            if elts is None:
+                continue                # the names it binds stay unknown
+            new = []
+            for r in out:
+                for x in elts:
+                    r2 = dict(r)
+                    if self._bind(tg, x, r2):
+                        new.append(r2)
+            if not new or len(new) > 400:
+                continue
+            out = new
+        return out
+
+    # ---- strings
+    def text(self, e, row, fn, depth=0):
+        """the string an expression denotes under a binding of loop variables, or None"""
+        if depth > 8 or e is None:
+            return None
+        if isinstance(e, ast.Constant):
+            return e.value if isinstance(e.value, str) else None
+        if isinstance(e, ast.JoinedStr):
+            parts = []
+            for v in e.values:
+                if isinstance(v, ast.FormattedValue):
+                    if v.format_spec is not None or v.conversion not in (-1, 115):
+                        return None
+                    v = v.value
+                parts.append(self.text(v, row, fn, depth + 1))
+            return None if any(x is None for x in parts) else "".join(parts)
+        if isinstance(e, ast.Name) and e.id in row:
+            return self.text(row[e.id], {k: v for k, v in row.items() if k != e.id}, fn, depth + 1)
+        if isinstance(e, (ast.Name, ast.Attribute)):
+            return self.text(self.deref(e, fn), row, fn, depth + 1)
+        if isinstance(e, ast.BinOp) and isinstance(e.op, ast.Add):
+            a, b = self.text(e.left, row, fn, depth + 1), self.text(e.right, row, fn, depth + 1)
+            return None if a is None or b is None else a + b
+        if isinstance(e, ast.BinOp) and isinstance(e.op, ast.Mod):
+            fmt = self.text(e.left, row, fn, depth + 1)
+            args = e.right.elts if isinstance(e.right, ast.Tuple) else [e.right]
+            vals = [self.text(a, row, fn, depth + 1) for a in args]
+            if fmt is None or any(v is None for v in vals) or fmt.count("%s") != len(vals) or fmt.count("%") != len(vals):
+                return None
+            return fmt % tuple(vals)
+        if isinstance(e, ast.Subscript) and isinstance(e.slice, ast.Constant) and isinstance(e.slice.value, int):
+            base = e.value
+            if isinstance(base, ast.Name) and base.id in row:
+                base = row[base.id]
+            elts = self.seq(base, fn)
+            if elts is not None and -len(elts) <= e.slice.value < len(elts):
+                return self.text(elts[e.slice.value], row, fn, depth + 1)
+            return None
+        if isinstance(e, ast.Call) and isinstance(e.func, ast.Attribute) and not e.keywords:
+            recv = self.text(e.func.value, row, fn, depth + 1)
+            if recv is not None and e.func.attr == "format":
+                vals = [self.text(a, row, fn, depth + 1) for a in e.args]
+                if any(v is None for v in vals):
+                    return None
+                try:
+                    return recv.format(*vals)
+                except Exception:
+                    return None
+            if recv is not None and e.func.attr == "join" and len(e.args) == 1:
+                elts = self.seq(e.args[0], fn)
+                vals = [self.text(a, row, fn, depth + 1) for a in elts] if elts is not None else None
+                return None if vals is None or any(v is None for v in vals) else recv.join(vals)
+        if isinstance(e, ast.Call) and isinstance(e.func, ast.Name) and e.func.id == "str" and len(e.args) == 1 and not e.keywords:
+            return self.text(e.args[0], row, fn, depth + 1)
+        return None
+
+    def values(self, e, fn, depth=0):
+        """every string the expression `e` (a node inside method `fn`) can denote, or None when some case is not understood"""
+        rows = self.rows(e, fn)
+        # a parameter of the method: the values the call sites `self.<method>(..)` in the class pass for it
+        params = [a.arg for a in fn.args.args[1:]] + [a.arg for a in fn.args.kwonlyargs]
+        used = [p_ for p_ in params if any(isinstance(n, ast.Name) and n.id == p_ for n in ast.walk(e))
+                and not any(isinstance(n, ast.Name) and n.id == p_ and isinstance(n.ctx, ast.Store) for n in ast.walk(fn))]
+        if used:
+            if depth > 2:
+                return None
+            sites = [(g, c) for g in self.ci.methods.values() for c in ast.walk(g)
+                     if isinstance(c, ast.Call) and isinstance(c.func, ast.Attribute) and c.func.attr == fn.name and isinstance(c.func.value, ast.Name) and c.func.value.id in ("self", "cls")]
+            if not sites:
+                return None
+            per_site = []
+            for g, c in sites:
+                if any(isinstance(a, ast.Starred) for a in c.args) or any(k.arg is None for k in c.keywords):
+                    return None
+                given = dict(zip([a.arg for a in fn.args.args[1:]], c.args))
+                given.update({k.arg: k.value for k in c.keywords})
+                defaults = dict(zip([a.arg for a in fn.args.args][len(fn.args.args) - len(fn.args.defaults):], fn.args.defaults))
+                combos = [{}]
+                for p_ in used:
+                    a = given.get(p_, defaults.get(p_))
+                    vals = self.values(a, g, depth + 1) if p_ in given else ([self.text(a, {}, None)] if a is not None else None)
+                    if not vals or any(v is None for v in vals):
+                        return None
+                    combos = [dict(cb, **{p_: ast.Constant(value=v)}) for cb in combos for v in vals]
+                per_site += combos
+            rows = [dict(r, **cb) for r in rows for cb in per_site]
+        out = []
+        for r in rows:
+            t = self.text(e, r, fn)
+            if t is None:
+                return None
+            if t not in out:
+                out.append(t)
+        return out
+
+
+def _declared(pkg, ci):
+    """names a command declares: {"options": set | None, "arguments": set | None} -- None when the declaration list is built in a way
+    that is not understood (then nothing is said about reads of that kind)"""
+    S = _Strings(pkg, ci)
+    names = {}
     for attr, helper in (("options", "option"), ("arguments", "argument")):
-        node = ci.attrs.get(attr)
+        node = pkg.resolve_attr(ci.name, attr)[1]
         if node is None:
+            names[attr] = set()
             continue
-        for c in ast.walk(node):
-            if isinstance(c, ast.Call) and ast.unparse(c.func) == helper and c.args and isinstance(c.args[0], ast.Constant):
-                names[attr].add(c.args[0].value)
+        out = set()
+
+        def collect(e, depth=0):
+            """False when an entry of the list is not understood"""
+            if depth > 6 or e is None:
+                return False
+            if isinstance(e, (ast.List, ast.Tuple)):
+                return all(collect(x.value if isinstance(x, ast.Starred) else x, depth + 1) if isinstance(x, ast.Starred) else entry(x, {}) for x in e.elts)
+            if isinstance(e, ast.BinOp) and isinstance(e.op, ast.Add):
+                return collect(e.left, depth + 1) and collect(e.right, depth + 1)
+            if isinstance(e, (ast.Name, ast.Attribute)):
+                return collect(S.deref(e, None), depth + 1)
+            if isinstance(e, ast.Call) and isinstance(e.func, ast.Name) and e.func.id in ("list", "tuple") and len(e.args) == 1 and not e.keywords:
+                return collect(e.args[0], depth + 1)
+            if isinstance(e, (ast.ListComp, ast.GeneratorExp)) and all(not g.ifs for g in e.generators):
+                rows = [{}]
+                for g in e.generators:
+                    elts = S.seq(g.iter, None)
+                    if elts is None:
+                        return False
+                    new = []
+                    for r in rows:
+                        for x in elts:
+                            r2 = dict(r)
+                            if not S._bind(g.target, x, r2):
+                                return False
+                            new.append(r2)
+                    rows = new
+                return all(entry(e.elt, r) for r in rows)
+            return False
+
+        def entry(x, row):
+            if isinstance(x, ast.Call) and ast.unparse(x.func) == helper:
+                a = x.args[0] if x.args else next((k.value for k in x.keywords if k.arg in ("name", "long_name")), None)
+                t = S.text(a, row, None) if a is not None else None
+                if t is not None:
+                    out.add(t)
+                    return True
+            return False
+        names[attr] = out if collect(node) else None
     return names
 
 
@@ -263,47 +636,23 @@ def _r3(ctx, pkg):
             continue
         ci = pkg.cls(cname)
         ctx.saw(ci.file, f"{cname}.handle")
-        decl = _declared(ci)
+        decl = _declared(pkg, ci)
+        S = _Strings(pkg, ci)
+        for kind in ("options", "arguments"):
+            if decl[kind] is None:
+                ctx.unrec("R3", f"{cname}:{kind} declared", (ci.file, ci.node.lineno), f"the list `{kind}` of {cname} is built in a way that is not understood")
         for mname, fn in ci.methods.items():
-            # f-strings with a finite expansion: for x in [literals]: self.option(f"..{x}..")
-            consts = {}
-            for node in ast.walk(fn):
-                if isinstance(node, ast.Assign) and isinstance(node.targets[0], ast.Name) and isinstance(node.value, (ast.List, ast.Tuple)) \
-                        and all(isinstance(e, ast.Constant) and isinstance(e.value, str) for e in node.value.elts):
-                    consts[node.targets[0].id] = [e.value for e in node.value.elts]
-            loopvals = {}
-            for node in ast.walk(fn):
-                if isinstance(node, ast.For):
-                    it = node.iter
-                    tg = node.target
-                    if isinstance(it, ast.Call) and ast.unparse(it.func) == "zip" and isinstance(tg, ast.Tuple):
-                        for t, a in zip(tg.elts, it.args):
-                            if isinstance(t, ast.Name) and isinstance(a, ast.Name) and a.id in consts:
-                                loopvals[t.id] = consts[a.id]
-                    elif isinstance(tg, ast.Name) and isinstance(it, ast.Name) and it.id in consts:
-                        loopvals[tg.id] = consts[it.id]
-                    elif isinstance(tg, ast.Name) and isinstance(it, (ast.List, ast.Tuple)) and all(isinstance(e, ast.Constant) for e in it.elts):
-                        loopvals[tg.id] = [e.value for e in it.elts]
             for c in ast.walk(fn):
                 if isinstance(c, ast.Call) and isinstance(c.func, ast.Attribute) and isinstance(c.func.value, ast.Name) and c.func.value.id == "self" \
-                        and c.func.attr in ("option", "argument") and c.args:
+                        and c.func.attr in ("option", "argument") and (c.args or c.keywords):
                     kind = "options" if c.func.attr == "option" else "arguments"
-                    a = c.args[0]
-                    names = None
-                    if isinstance(a, ast.Constant) and isinstance(a.value, str):
-                        names = [a.value]
-                    elif isinstance(a, ast.JoinedStr):
-                        names = [""]
-                        for part in a.values:
-                            if isinstance(part, ast.Constant):
-                                names = [x + part.value for x in names]
-                            elif isinstance(part, ast.FormattedValue) and isinstance(part.value, ast.Name) and part.value.id in loopvals:
-                                names = [x + v for x in names for v in loopvals[part.value.id]]
-                            else:
-                                names = None
-                                break
+                    a = c.args[0] if c.args else c.keywords[0].value
+                    names = S.values(a, fn)
                     if names is None:
-                        ctx.unrec("R3", f"{cname}.{mname}:{ast.unparse(a)[:40]}", (ci.file, c.lineno), "option name is not a literal or a finitely expandable f-string")
+                        ctx.unrec("R3", f"{cname}.{mname}:{ast.unparse(a)[:40]}", (ci.file, c.lineno), "option name is not a literal or a finitely expandable expression")
+                        continue
+                    if decl[kind] is None:
+                        n += len(names)
                         continue
                     for nm in names:
                         n += 1
@@ -321,6 +670,13 @@ def _set_difference(v):
         return v[2], v[3]
     if v[0] == "meth" and v[2] == "difference" and len(v[3]) == 1 and not v[4]:
         return v[1], v[3][0]
+    # {x for x in a if x not in b}
+    if v[0] == "comp" and v[1] == "set" and len(v[3]) == 1:
+        tg, it, ifs = v[3][0]
+        if tg is not None and tg[0] == "bv" and v[2] == tg and len(ifs) == 1 and ifs[0][0] == "cmp" and ifs[0][1] == ("NotIn",) and ifs[0][2][0] == tg:
+            return it, ifs[0][2][1]
+    if v[0] == "call" and v[1] == ("global", "set") and len(v[2]) == 1 and not v[3] and v[2][0][0] == "comp":
+        return _set_difference(("comp", "set") + tuple(v[2][0][2:]))
     return None
 
 
@@ -613,3 +969,133 @@ BENIGN = [
         {"file": NF, "old": "        self._required_species = [Species(s, **self._species_kwargs) for s in speclist]\n", "new": "        self._required_species = [Species(s, **self._species_kwargs) for s in speclist]\n        self._spc = None\n"}]},
     {"name": "filter-condition-restructured", "file": NF, "old": "        if self._allowed_species:\n            if not all(", "new": "        if len(self._allowed_species) > 0 and self._allowed_species:\n            if not all("},
 ]
+
+# --- spellings accepted since the second hardening wave (each with the defect it must still see) ---------------------------------
+_ADD_OLD = ("        if not isinstance(reaction, Reaction):\n            reaction = _reaction_factory(*reaction)\n\n"
+            "        # return empty set for updating if it is a fake react_string\n        if not reaction:\n            return set(), set(), None\n\n"
+            "        if self._allowed_species:\n            if not all(\n                [\n                    rp in self._allowed_species\n"
+            "                    for rp in reaction.reactants + reaction.products\n                ]\n            ):\n"
+            "                self._skipped_reactions.append(reaction)\n                return set(), set(), None\n\n"
+            "        self.reaction_list.append(reaction)\n        new_reactants = set(reaction.reactants).difference(self._reactants)\n"
+            "        new_products = set(reaction.products).difference(self._products)\n        self._reactants.update(new_reactants)\n        self._products.update(new_products)\n")
+_ADD_TAIL = ("        # if len(self.reaction_list) % 100 == 0:\n        #     print(\"Processing: {} reactions...\".format(len(self.reaction_list)))\n"
+             "        return new_reactants, new_products, reaction\n")
+
+
+def _add_pipeline(members="entry.reactants + entry.products", admit_products=True):
+    """_add_reaction as a pipeline of private methods: conversion (value helper with an early return), the filter (predicate
+    helper with a guard clause), the bookkeeping of an admitted reaction (statement helper whose result is returned)"""
+    return [{"file": NF, "old": _ADD_OLD + _ADD_TAIL,
+             "new": "        reaction = self._coerce(reaction)\n\n        if not reaction:\n            return set(), set(), None\n\n"
+                    "        if not self._admits(reaction):\n            self._skipped_reactions.append(reaction)\n            return set(), set(), None\n\n"
+                    "        return self._admit(reaction)\n\n"
+                    "    @staticmethod\n    def _coerce(entry):\n        if isinstance(entry, Reaction):\n            return entry\n        return _reaction_factory(*entry)\n\n"
+                    "    def _admits(self, entry):\n        if not self._allowed_species:\n            return True\n        involved = " + members + "\n"
+                    "        return all(rp in self._allowed_species for rp in involved)\n\n"
+                    "    def _admit(self, entry):\n        self.reaction_list.append(entry)\n        fresh_r = set(entry.reactants).difference(self._reactants)\n"
+                    "        fresh_p = set(entry.products).difference(self._products)\n        self._reactants.update(fresh_r)\n"
+                    + ("        self._products.update(fresh_p)\n" if admit_products else "") + "        return fresh_r, fresh_p, entry\n"}]
+
+
+_DESORB_OLD = ('        options = ["thermal", "photon", "cosmic-ray"]\n        rtypes = [\n            ReactionType.GRAIN_DESORB_THERMAL,\n            ReactionType.GRAIN_DESORB_PHOTON,\n'
+               '            ReactionType.GRAIN_DESORB_COSMICRAY,\n        ]\n        for option, rtype in zip(options, rtypes):\n            if self.option(f"append-{option}-desorption"):\n')
+
+
+def _desorb_table(third="append-cosmic-ray-desorption"):
+    return [{"file": EXT, "old": "    def __init__(self):\n        super(ExtendCommand, self).__init__()\n",
+             "new": "    _DESORB = (\n        (\"append-thermal-desorption\", ReactionType.GRAIN_DESORB_THERMAL),\n        (\"append-photon-desorption\", ReactionType.GRAIN_DESORB_PHOTON),\n"
+                    "        (\"" + third + "\", ReactionType.GRAIN_DESORB_COSMICRAY),\n    )\n\n    def __init__(self):\n        super(ExtendCommand, self).__init__()\n"},
+            {"file": EXT, "old": _DESORB_OLD, "new": "        for flag, rtype in self._DESORB:\n            if self.option(flag):\n"}]
+
+
+_SCAN_OLD = ("        seen = {}\n        dupes = []\n        dupidx = []\n\n        check_list = reactions\n")
+_SCAN_LOOP = ("        for idx, chk in enumerate(\n            tqdm(check_list, desc=\"Checking Repeated Reactions...\")\n        ):\n            if chk not in seen:\n                seen[chk] = [idx]\n"
+              "            else:\n                if len(seen[chk]) >= 1:\n                    dupes.append(reactions[idx])\n                    dupidx.append(idx)\n                seen[chk].append(idx)\n")
+
+
+def _scan_helper():
+    return [{"file": NF, "old": _SCAN_OLD, "new": "        check_list = reactions\n"},
+            {"file": NF, "old": _SCAN_LOOP, "new": "        seen, dupidx = self._later_copies(check_list)\n        dupes = [reactions[i] for i in dupidx]\n"},
+            {"file": NF, "old": "    def find_source_sink(self)", "new": "    @staticmethod\n    def _later_copies(keys):\n        groups = {}\n        later = []\n        for pos, key in enumerate(tqdm(keys)):\n"
+             "            if key not in groups:\n                groups[key] = [pos]\n            else:\n                later.append(pos)\n                groups[key].append(pos)\n"
+             "        return groups, later\n\n    def find_source_sink(self)"}]
+
+
+MUTANTS += [
+    {"name": "pipeline-filter-looks-at-reactants-only", "edits": _add_pipeline(members="entry.reactants"), "rules": ["R2"]},
+    {"name": "pipeline-admit-forgets-products", "edits": _add_pipeline(admit_products=False), "rules": ["R1", "R2"]},
+    {"name": "class-table-option-misspelt", "edits": _desorb_table("append-cosmicray-desorption"), "rules": ["R3"]},
+    {"name": "scan-helper-and-removal-by-object", "edits": _scan_helper() + [
+        {"file": EXT, "old": "            _, dupidx, _ = net.find_duplicate_reaction()\n            net.remove_reaction(dupidx)", "new": "            dupes, _, _ = net.find_duplicate_reaction()\n            net.remove_reaction(dupes)"}], "rules": ["R5"]},
+]
+BENIGN += [
+    {"name": "add-reaction-pipeline-of-private-methods", "edits": _add_pipeline()},
+    {"name": "desorption-options-class-table", "edits": _desorb_table()},
+    {"name": "duplicate-scan-in-static-helper", "edits": _scan_helper()},
+]
+_POOL_OLD = "        speclist = sorted(\n            self._reactants | self._products | set(self._required_species)\n        )\n\n        connection = {sp: set() for sp in speclist}\n"
+BENIGN += [
+    {"name": "species-pool-by-set-method", "file": NF, "old": _POOL_OLD,
+     "new": "        speclist = sorted(set().union(self._reactants, self._products, self._required_species))\n\n        connection = {sp: set() for sp in speclist}\n"},
+    {"name": "species-pool-by-chain", "file": NF, "old": _POOL_OLD,
+     "new": "        speclist = sorted(set(itertools.chain(self._reactants, self._products, self._required_species)))\n\n        connection = {sp: set() for sp in speclist}\n"},
+]
+MUTANTS += [
+    {"name": "species-pool-without-products", "file": NF, "old": _POOL_OLD,
+     "new": "        speclist = sorted(set().union(self._reactants, self._required_species))\n\n        connection = {sp: set() for sp in speclist}\n", "rules": ["R4"]},
+]
+NEWC = "naunet/console/commands/new.py"
+_NEW_DECL = ('    options = [\n        option("name", None, "Project name."),\n        option("description", None, "Project description."),\n    ]\n')
+
+
+def _new_by_tables(declared='("description", "Project description.")', read='"description"', helper_arg='"name"'):
+    """NewCommand with the option list built from a class-level table by a comprehension, one option read through a helper method that
+    takes the name as parameter, the other through a dict comprehension over a literal tuple"""
+    return [
+        {"file": NEWC, "old": _NEW_DECL, "new": '    _SPECS = (("name", "Project name."), ' + declared + ')\n    options = [option(label, None, text) for label, text in _SPECS]\n'},
+        {"file": NEWC, "old": "    def handle(self):\n", "new": "    def _given(self, label):\n        return self.option(label)\n\n    def handle(self):\n"},
+        {"file": NEWC, "old": '        name = self.option("name") or path.name\n', "new": "        name = self._given(" + helper_arg + ") or path.name\n"},
+        {"file": NEWC, "old": '        description = self.option("description") or ""\n',
+         "new": "        texts = {label: self.option(label) for label in (" + read + ",)}\n        description = texts[" + read + '] or ""\n'}]
+
+
+BENIGN += [{"name": "options-declared-and-read-through-tables-and-helper", "edits": _new_by_tables()}]
+MUTANTS += [
+    {"name": "helper-call-site-passes-undeclared-name", "edits": _new_by_tables(helper_arg='"title"'), "rules": ["R3"]},
+    {"name": "table-declares-another-name", "edits": _new_by_tables(declared='("summary", "Project description.")'), "rules": ["R3"]},
+    {"name": "comprehension-reads-undeclared-name", "edits": _new_by_tables(read='"descr"'), "rules": ["R3"]},
+]
+_RECORD_OLD = ("        self.reaction_list.append(reaction)\n        new_reactants = set(reaction.reactants).difference(self._reactants)\n"
+               "        new_products = set(reaction.products).difference(self._products)\n        self._reactants.update(new_reactants)\n        self._products.update(new_products)\n")
+
+
+def _record_by_alias(products_line="        made.update(new_products)\n"):
+    return {"file": NF, "old": _RECORD_OLD, "new": "        pool, used, made = self.reaction_list, self._reactants, self._products\n        pool.append(reaction)\n"
+            "        new_reactants = set(reaction.reactants).difference(used)\n        new_products = set(reaction.products).difference(made)\n        used.update(new_reactants)\n" + products_line}
+
+
+BENIGN += [dict(_record_by_alias(), name="attributes-under-local-names")]
+MUTANTS += [dict(_record_by_alias(products_line=""), name="local-names-products-not-updated", rules=["R1", "R2"]),
+            dict(_record_by_alias(products_line="        made.update(new_reactants)\n"), name="local-names-products-grown-by-reactants", rules=["R2"])]
+BENIGN += [{"name": "setter-snapshot-by-unpacking", "file": NF, "old": "recorded_reactions = self.reaction_list + self._skipped_reactions",
+            "new": "recorded_reactions = [*self.reaction_list, *self._skipped_reactions]"}]
+MUTANTS += [{"name": "setter-snapshot-forgets-skipped", "file": NF, "old": "recorded_reactions = self.reaction_list + self._skipped_reactions",
+             "new": "recorded_reactions = [*self.reaction_list]", "rules": ["R2"]}]
+BENIGN += [{"name": "source-by-set-comprehension", "file": NF, "old": "source = self._reactants.difference(self._products)", "new": "source = {sp for sp in self._reactants if sp not in self._products}"}]
+MUTANTS += [{"name": "source-by-set-comprehension-of-products", "file": NF, "old": "source = self._reactants.difference(self._products)", "new": "source = {sp for sp in self._products if sp not in self._products}", "rules": ["R4"]}]
+
+
+def _two_steps(products="        self._products.update(fresh_p)\n"):
+    return {"file": NF, "old": _RECORD_OLD + _ADD_TAIL, "new": "        self._store(reaction)\n        return self._note_species(reaction)\n\n    def _store(self, entry):\n        self.reaction_list.append(entry)\n\n"
+            "    def _note_species(self, entry):\n        fresh_r = set(entry.reactants).difference(self._reactants)\n        fresh_p = set(entry.products).difference(self._products)\n"
+            "        self._reactants.update(fresh_r)\n" + products + "        return fresh_r, fresh_p, entry\n"}
+
+
+BENIGN += [dict(_two_steps(), name="append-and-cache-update-in-separate-steps")]
+MUTANTS += [dict(_two_steps(products=""), name="separate-steps-products-forgotten", rules=["R1", "R2"])]
+BENIGN += [{"name": "cache-update-only-when-something-is-new", "file": NF, "old": "        self._reactants.update(new_reactants)\n        self._products.update(new_products)\n",
+            "new": "        if new_reactants:\n            self._reactants.update(new_reactants)\n        if new_products:\n            self._products.update(new_products)\n"}]
+MUTANTS += [{"name": "products-updated-only-when-reactants-are-new", "file": NF, "old": "        self._reactants.update(new_reactants)\n        self._products.update(new_products)\n",
+             "new": "        if new_reactants:\n            self._reactants.update(new_reactants)\n            self._products.update(new_products)\n", "rules": ["R1", "R2"]}]
+BENIGN += [{"name": "setter-clears-the-lists-in-place", "file": NF, "old": "        self.reaction_list = []\n        self._skipped_reactions = []\n\n        for reaction in recorded_reactions:",
+            "new": "        self.reaction_list.clear()\n        self._skipped_reactions.clear()\n\n        for reaction in recorded_reactions:"}]
